@@ -512,11 +512,17 @@ fn public_boundary_ops(rng: &mut Rng, lgk: u8, rf: u8, seed: u64) -> Vec<Op> {
 
 /// sampling sketch whose updates are all screened out, then compact / bounds (C01, C04)
 /// trim at exactly k retained entries (nothing to do), twice, and right after the automatic rebuild
-fn exact_k_trim_ops(rng: &mut Rng, lgk: u8) -> Vec<Op> {
+fn exact_k_trim_ops(rng: &mut Rng, lgk: u8, extra: usize) -> Vec<Op> {
     let k = 1usize << lgk;
-    let mut ops: Vec<Op> = (0..k).map(|_| Op::Item(rng.next())).collect();
+    let mut ops: Vec<Op> = (0..k + extra).map(|_| Op::Item(rng.next())).collect();
     ops.push(Op::Trim);
     ops.push(Op::Compact(true));
+    if extra > 0 {
+        // every item again: what is retained is found where it is, what was trimmed away is screened out
+        let again: Vec<Op> = ops[..k + extra].to_vec();
+        ops.extend(again);
+        ops.push(Op::Compact(true));
+    }
     ops.push(Op::Trim);
     // on to the first rebuild (15/8 k entries), then trim twice
     for _ in 0..k {
@@ -641,8 +647,14 @@ pub fn record(args: &Args) {
         }
         for &lgk in &[5u8, 6, 7] {
             for rf in [0u8, 3] {
-                let ops = exact_k_trim_ops(&mut rng, lgk);
+                let ops = exact_k_trim_ops(&mut rng, lgk, 0);
                 run(&mut out, "theta-trim-at-k", lgk, rf, 1.0, 9001, &ops);
+            }
+            for rf in [0u8, 1, 2, 3] {
+                for rep in 0..(if thorough { 12 } else { 4 }) {
+                    let ops = exact_k_trim_ops(&mut rng, lgk, 1 + rep % 2);
+                    run(&mut out, "theta-trim-above-k", lgk, rf, 1.0, 9001, &ops);
+                }
             }
         }
         // probabilities so small that p * 2^63 truncates to 0 (theta starts at the smallest positive value)
